@@ -185,9 +185,21 @@ class Check:
             if not re.search(r"struct AssertStruct \{\s*value: syn::Expr,\s*pattern: Pattern,\s*\}", lib) or \
                not re.search(r"let assert = match syn::parse\(input\) \{\s*Ok\(assert\) => assert,\s*Err\(err\) => return TokenStream::from\(err\.to_compile_error\(\)\),\s*\};\s*(//[^\n]*\s*)*let expanded = expand::expand\(&assert\);", lib):
                 raise RuntimeError("assert-struct-macros/src/lib.rs no longer has the entry-point shape the in-process harness mirrors (struct AssertStruct / syn::parse -> expand::expand)")
+        # cargo decides freshness by mtime; a tree restored with old mtimes would leave a stale
+        # binary.  Whenever the content hash of /repo differs from the one last built, force the
+        # crates that come from /repo to be rebuilt.
+        stamp = os.path.join(CACHE, "built-%s.hash" % name)
+        h = repo_hash()
+        last = open(stamp).read().strip() if os.path.exists(stamp) else ""
+        if last != h:
+            if name == "inproc":
+                os.utime(os.path.join(d, "src", "main.rs"), None)
+            else:
+                sh(["cargo", "clean", "--release", "--offline", "-p", "assert-struct", "-p", "assert-struct-macros"], cwd=d)
         rc, out, err = sh(["cargo", "build", "--release", "--offline"], cwd=d, timeout=3600)
         if rc != 0:
             raise RuntimeError("cargo build of harness %s failed:\n%s" % (name, err[-6000:]))
+        open(stamp, "w").write(h)
         return os.path.join(CACHE, "target", name, "release")
 
     def lean_batch(self, lines):
